@@ -661,6 +661,8 @@ func runSrc(c *Ctx) {
 			continue
 		}
 		reps := c.N(400, 6000)
+		var prev V // the previous call's result, still held by its caller
+		prevToks, prevReq := "", ""
 		for i := 0; i < reps; i++ {
 			args, thunk := f.gen(r)
 			req := Req{Name: "src." + f.key, Zs: []string{Z(int64(len(args)))}}
@@ -675,12 +677,23 @@ func runSrc(c *Ctx) {
 			} else {
 				t.I(0)
 				v.toks(t)
+				// a result belongs to its caller: a later call (with other arguments) must not change it
+				if prevToks != "" {
+					tp := &Toks{}
+					tp.I(0)
+					prev.toks(tp)
+					if tp.String() != prevToks {
+						c.Fail("spec", "src."+f.key, "src-stable:"+f.key, prevReq+"  then  "+req.Line(""), tp.String(), prevToks, "the result of an earlier call is not changed by a later call (no scratch buffer shared between results)")
+					}
+				}
+				prev, prevToks, prevReq = v, t.String(), req.Line("")
 				if ok, what := viewsIntact(); !ok {
 					c.Fail("spec", "src."+f.key, "src-args:"+f.key, req.Line(""), what, "arguments and the memory behind them unchanged", "a function of attribute.go/attributes.go/packet.go does not write into (or append to) its byte-slice arguments")
 				}
 				// the caller overwrites the result; the same call again must give the same answer (no buffer shared
 				// between two results, no state kept across calls)
 				if i%4 == 0 {
+					prevToks = ""
 					v.scribble()
 					if fresh := f.props[0] == "C10" || f.props[0] == "C04" || f.props[0] == "C11"; fresh {
 						// the codecs of attribute.go return fresh memory: overwriting a result must not reach an argument
